@@ -224,7 +224,7 @@ func (s *supplied) snap() snapshot {
 		out.astTokens = sha([]byte(tokenDump(s.res.AST())))
 		out.protoBytes = vhlib.Hx(detMarshal(s.res.FileDescriptorProto()))
 		out.nodeIndex = sha([]byte(nodeIndexDump(s.res)))
-	case "result_noast":
+	case "result_noast", "result_noast_si":
 		// a parser.Result that wraps a descriptor proto and has no AST (parser.ResultWithoutAST)
 		out.protoBytes = vhlib.Hx(detMarshal(s.res.FileDescriptorProto()))
 	case "proto", "proto_si":
@@ -295,7 +295,7 @@ func formsCase(in map[string]any) map[string]any {
 	var refSI map[string]*descriptorpb.SourceCodeInfo
 	needRef := false
 	for _, f := range forms {
-		if f == "proto_si" {
+		if f == "proto_si" || f == "result_noast_si" {
 			needRef = true
 		}
 	}
@@ -332,9 +332,14 @@ func formsCase(in map[string]any) map[string]any {
 					return map[string]any{"prep_err": "result: " + errClass(err)}
 				}
 				s.res = r
-				if s.form == "result_noast" {
+				if s.form == "result_noast" || s.form == "result_noast_si" {
 					// the unlinked descriptor (relative type names, uninterpreted options) without its AST
-					s.res = parser.ResultWithoutAST(proto.Clone(r.FileDescriptorProto()).(*descriptorpb.FileDescriptorProto))
+					p := proto.Clone(r.FileDescriptorProto()).(*descriptorpb.FileDescriptorProto)
+					if s.form == "result_noast_si" {
+						// ... that already carries source info (what an all-source compilation in this mode produces)
+						p.SourceCodeInfo = proto.Clone(refSI[name]).(*descriptorpb.SourceCodeInfo)
+					}
+					s.res = parser.ResultWithoutAST(p)
 					s.astN = nil
 				}
 				if s.form == "proto" || s.form == "proto_si" {
@@ -367,7 +372,7 @@ func formsCase(in map[string]any) map[string]any {
 			return protocompile.SearchResult{Source: strings.NewReader(s.text)}, nil
 		case "ast":
 			return protocompile.SearchResult{AST: s.astN}, nil
-		case "result", "result_noast":
+		case "result", "result_noast", "result_noast_si":
 			return protocompile.SearchResult{ParseResult: s.res}, nil
 		default:
 			return protocompile.SearchResult{Proto: s.proto}, nil
